@@ -36,6 +36,7 @@
 -/
 import Hw.Io.ConcLemmas
 import Hw.Io.ConcRegLemmas
+import Hw.Io.ConcEntry
 import Hw.Gen.ComponentsIR
 namespace Hw.Props.C17
 open Hw Hw.Conc
@@ -192,6 +193,74 @@ theorem C17_registry_quiescent (n : Nat) (sched : List Nat)
   | false => rfl
   | true => exact absurd (this.mp hr) (by omega)
 
+/-! ### the public entry points that reach the registry (engine `readonly`, ops `reg ...`) -/
+
+/-- P0 entry_refcount, on the GENERATED critical sections: started with `n` references held (registry initialised iff
+    `n > 0`), EVERY public entry point that reaches the component registry, on EVERY path through it (success, rejected
+    arguments, TOO_COMPLEX diff entries, unreadable / malformed input, source not loaded, ...), returns with the lock
+    free, no failed assert, the registry initialised iff references remain, and the count changed by exactly the
+    topologies it handed out (`creates`) or consumed (`releases`). -/
+theorem C17_entry_refcount (e : Reg.Entry) (n : Nat) (h : Reg.releases e ≤ n) :
+    Reg.runEntry Hw.Gen.ComponentsIR.initProg Hw.Gen.ComponentsIR.finiProg (Reg.good n) e
+      = Reg.good (n + Reg.creates e - Reg.releases e) := by
+  rw [C17_gen_ir_matches_init, C17_gen_ir_matches_fini]
+  exact Reg.runEntry_good e n h
+
+/-- ... hence the count is unchanged by every entry point except the three that hand out a topology (init, a
+    successful dup, a successful adopt: +1) and destroy (-1).  In particular the diff import / export entry points leave
+    it unchanged whether they succeed, fail in the parser / writer, or reject a TOO_COMPLEX list up front. -/
+theorem C17_only_init_destroy_change (e : Reg.Entry) (n : Nat)
+    (h1 : e ≠ .topologyInit) (h2 : e ≠ .topologyDup true) (h3 : e ≠ .shmemAdopt .ok) (h4 : e ≠ .topologyDestroy) :
+    Reg.runEntry Hw.Gen.ComponentsIR.initProg Hw.Gen.ComponentsIR.finiProg (Reg.good n) e = Reg.good n := by
+  have hc : Reg.creates e = 0 := by
+    cases e with
+    | topologyInit => exact absurd rfl h1
+    | topologyDup ok => cases ok with
+      | true => exact absurd rfl h2
+      | false => rfl
+    | shmemAdopt p => cases p with
+      | ok => exact absurd rfl h3
+      | _ => rfl
+    | _ => rfl
+  have hr : Reg.releases e = 0 := by
+    cases e with
+    | topologyDestroy => exact absurd rfl h4
+    | _ => rfl
+  have := C17_entry_refcount e n (by omega)
+  rw [hc, hr] at this
+  simpa using this
+
+theorem C17_init_dup_adopt_take_one (n : Nat) :
+    Reg.runEntry Hw.Gen.ComponentsIR.initProg Hw.Gen.ComponentsIR.finiProg (Reg.good n) .topologyInit = Reg.good (n + 1) ∧
+    Reg.runEntry Hw.Gen.ComponentsIR.initProg Hw.Gen.ComponentsIR.finiProg (Reg.good n) (.topologyDup true) = Reg.good (n + 1) ∧
+    Reg.runEntry Hw.Gen.ComponentsIR.initProg Hw.Gen.ComponentsIR.finiProg (Reg.good n) (.shmemAdopt .ok) = Reg.good (n + 1) ∧
+    Reg.runEntry Hw.Gen.ComponentsIR.initProg Hw.Gen.ComponentsIR.finiProg (Reg.good (n + 1)) .topologyDestroy = Reg.good n :=
+  ⟨C17_entry_refcount .topologyInit n (Nat.zero_le _), C17_entry_refcount (.topologyDup true) n (Nat.zero_le _),
+   C17_entry_refcount (.shmemAdopt .ok) n (Nat.zero_le _), C17_entry_refcount .topologyDestroy (n + 1) (Nat.succ_le_succ (Nat.zero_le _))⟩
+
+/-- P0 history_refcount: for EVERY history of entry points in which the caller only destroys topologies it owns
+    (`liveAfter k h = some k'`: it starts with `k` and ends with `k'` topologies), at EVERY point of the history the
+    reference count equals the number of live topologies, the registry is initialised iff one is alive, and no assert
+    fails; at the end the count is `k'`. -/
+theorem C17_history_refcount (h : List Reg.Entry) (k k' : Nat) (hl : Reg.liveAfter k h = some k') :
+    Reg.runHist Hw.Gen.ComponentsIR.initProg Hw.Gen.ComponentsIR.finiProg (Reg.good k) h = Reg.good k' ∧
+    ∀ i, ∃ j, Reg.liveAfter k (h.take i) = some j ∧
+      Reg.runHist Hw.Gen.ComponentsIR.initProg Hw.Gen.ComponentsIR.finiProg (Reg.good k) (h.take i) = Reg.good j := by
+  rw [C17_gen_ir_matches_init, C17_gen_ir_matches_fini]
+  refine ⟨Reg.runHist_good h k k' hl, fun i => ?_⟩
+  obtain ⟨j, hj⟩ := Reg.liveAfter_take h k k' hl i
+  exact ⟨j, hj, Reg.runHist_good _ k j hj⟩
+
+/-- why no path may call hwloc_components_fini without its own hwloc_components_init (the class of defect the `reg`
+    histories look for): with ONE topology alive a stray fini tears the registry down under it (count 0, registry
+    gone: its set_synthetic / set_xml / load find no component, the last destroy fails its assert), and on an empty
+    registry the assert of hwloc_components_fini fails at once. -/
+theorem C17_stray_fini_breaks :
+    Reg.runCall Hw.Gen.ComponentsIR.initProg Hw.Gen.ComponentsIR.finiProg (Reg.good 1) .fini = Reg.good 0 ∧
+    (Reg.runEntry Hw.Gen.ComponentsIR.initProg Hw.Gen.ComponentsIR.finiProg
+      (Reg.runCall Hw.Gen.ComponentsIR.initProg Hw.Gen.ComponentsIR.finiProg (Reg.good 1) .fini) .topologyDestroy).bad = true ∧
+    (Reg.runCall Hw.Gen.ComponentsIR.initProg Hw.Gen.ComponentsIR.finiProg (Reg.good 0) .fini).bad = true := by decide
+
 /-! ### non-vacuity -/
 
 /-- a refreshed topology with two distances structures, a convenience attribute, a plain attribute and one that
@@ -234,5 +303,23 @@ example :
 example :
     let ip : Reg.Prog := [.test, .inc, .lock, .brIfNot 6, .unlock, .ret, .initReg, .unlock, .ret]
     (Reg.run ip Reg.Model.finiProg (Reg.start 2) [0, 0]).bad = true := by decide
+
+/-- a history over three independent topologies: A inited, B and C loaded, a TOO_COMPLEX diff of B and C rejected by both
+    export entry points, an ordinary diff exported and re-imported, B written to shared memory and adopted as D, everything
+    destroyed: admissible (ends with 0 topologies), and the count after the rejected exports is still 3 -/
+def exHist : List Reg.Entry :=
+  [.topologyInit, .topologyInit, .setSource, .load, .topologyInit, .setSource, .load, .diffBuild,
+   .diffExportXmlbuffer true, .diffExportXml true, .diffExportXmlbuffer false, .diffLoadXmlbuffer, .diffDestroy,
+   .shmemGetLength true, .shmemWrite true, .shmemAdopt .ok, .topologyDup false, .setSource, .load, .exportXml,
+   .topologyDestroy, .topologyDestroy, .topologyDestroy, .topologyDestroy]
+
+example : Reg.liveAfter 0 exHist = some 0 ∧ Reg.liveAfter 0 (exHist.take 10) = some 3 ∧
+    Reg.liveAfter 0 (exHist.take 16) = some 4 := by decide
+
+example : Reg.runHist Hw.Gen.ComponentsIR.initProg Hw.Gen.ComponentsIR.finiProg (Reg.good 0) (exHist.take 10) = Reg.good 3 :=
+  (C17_history_refcount (exHist.take 10) 0 3 (by decide)).1
+
+/-- the hypothesis of C17_history_refcount excludes only caller errors: destroying with nothing alive -/
+example : Reg.liveAfter 0 [.topologyInit, .topologyDestroy, .topologyDestroy] = none := by decide
 
 end Hw.Props.C17
